@@ -146,7 +146,27 @@ def _subst_tag(e):
 def r4_bits(ctx):
   prog = ctx.prog
   why_tag = 'the reader reassembles the tag as b2*2^16 + b1*2^8 + b0; any other byte order or mask routes replies to the wrong request'
-  encs = [prog.func(TSINK, 'SocketTransportSink._EncodeTag'), prog.func(MUX, 'Tag.Encode')]
+  enc0 = prog.try_func(TSINK, 'SocketTransportSink._EncodeTag')
+  if enc0 is None:
+    # the header writer no longer goes through the byte-wise tag encoder: it may pack type and tag as one 32-bit word.
+    # The mux type is a SIGNED byte (every reply type is negative), so such a word must be packed signed
+    bh_ = prog.func(TSINK, 'SocketTransportSink._BuildHeader')
+    sites_ = [x for x in wire.struct_sites(prog, bh_) if x.op == 'pack']
+    okw = False
+    whatw = 'header writer not recognised'
+    if len(sites_) == 1 and sites_[0].fmt is not None:
+      codes = [(x.code, x.count) for x in sites_[0].fmt.fields]
+      tparam, mparam = bh_.params[1], bh_.params[2]
+      if codes == [('i', 1), ('i', 1)] or codes == [('i', 1), ('l', 1)]:
+        w = U(sites_[0].args[1]).replace(' ', '').replace('(', '').replace(')', '')
+        okw = w in ('%s<<24|%s&16777215' % (mparam, tparam), '%s<<24|%s&0xffffff' % (mparam, tparam), '%s&16777215|%s<<24' % (tparam, mparam))
+        whatw = 'header word is %s' % U(sites_[0].args[1])
+      else:
+        whatw = ('the header packs type and tag with format %r: the type byte is signed (reply types are negative), an unsigned word cannot hold '
+                 'type << 24 for them (struct.error) and the reader no longer inverts the writer for any reply type' % sites_[0].fmt.text)
+    ctx.ob('C13.R4', bh_, 'the header writer packs the signed type byte and the 24-bit tag', okw, whatw, why_tag)
+    return
+  encs = [enc0, prog.func(MUX, 'Tag.Encode')]
   vecs = []
   for f in encs:
     try:
